@@ -18,7 +18,7 @@ RULE = ('histories = every valid sequence up to depth D over {B(i): build model 
         'variants); composed API potentials used as operands after evaluation; OUTPUT_FILE = /dev/stdout in a pipe; THREAD SCHEDULES: two real threads '
         'tabulating at once under a cooperative scheduler - (a) switch points = evaluations of the model functions, every schedule with <= 2 '
         'pre-emptions (A at its i-th, B at its j-th evaluation) for 14 target pairs, (b) switch point = any traced line of the library, one '
-        'pre-emption (B runs to completion), also with both threads writing ONE tabulation object; PROCESS ENVIRONMENT: every model (and the potable command line) in fresh processes run with python -O, -OO, with logging configured at DEBUG / ERROR by the embedding application, and both: same bytes, same probe values; probes include an evaluation that fails inside a formula (later evaluations of the same objects are unaffected) and separations handed over as 0-d numpy arrays (the array is the caller's: unchanged, and the value repeatable); PROCESS STATE: after every operation of every history the process-wide state (numpy error mode and print options, recursion limit, cwd, decimal context, locale, logging levels, umask, sys.stdout) is what it was before')
+        'pre-emption (B runs to completion), also with both threads writing ONE tabulation object; PROCESS ENVIRONMENT: every model (and the potable command line) in fresh processes run with python -O, -OO, with logging configured at DEBUG / ERROR by the embedding application, and both: same bytes, same probe values; probes include an evaluation that fails inside a formula (later evaluations of the same objects are unaffected) and separations handed over as 0-d numpy arrays (the array belongs to the caller: unchanged, and the value repeatable); PROCESS STATE: after every operation of every history the process-wide state (numpy error mode and print options, recursion limit, cwd, decimal context, locale, logging levels, umask, sys.stdout) is what it was before')
 ASSUMPTIONS = [
     'set-order seam: module-level name `set` injected into config/_eam_potential_builder, _dlpoly_writeTABEAM, config/_config_parser, config/_tabulation_factories; a set built elsewhere whose order reaches the output is only covered by the hash-seed runs',
     'hash seeds {0,1,2,3,5,8,13,21,34,random}: the seeds control iteration order, all orders of the covered sets are enumerated by the seam',
